@@ -173,6 +173,31 @@ func (p *pathState) decide(c *Term) bool {
 	return true
 }
 
+// chooseFree resolves a choice over a freshly drawn variable v whose only
+// constraint is 0 <= v < n: every value is feasible whenever the path is, so
+// the alternatives are queued without consulting the solver.
+func (p *pathState) chooseFree(v *Term, n int) int {
+	b := p.bank()
+	if p.pos < len(p.prefix) {
+		e := p.prefix[p.pos]
+		p.pos++
+		p.taken = append(p.taken, e)
+		p.addPC(b.Eq(v, b.BV(e.v, v.sort.w)))
+		return int(e.v)
+	}
+	p.pos++
+	for k := n - 1; k >= 1; k-- {
+		alt := make([]traceEntry, len(p.taken)+1)
+		copy(alt, p.taken)
+		alt[len(p.taken)] = traceEntry{b: true, v: uint64(k), hasV: true}
+		p.w.eng.push(alt)
+		p.forks++
+	}
+	p.taken = append(p.taken, traceEntry{b: true, v: 0, hasV: true})
+	p.addPC(b.Eq(v, b.BV(0, v.sort.w)))
+	return 0
+}
+
 // concretize picks a feasible concrete value for an integer term, forking
 // over the alternatives. limit bounds the number of alternatives explored on
 // one path (an unwinding failure beyond).
